@@ -304,7 +304,7 @@ fn mfft_field<F: FftField + PrimeField>(cx: &mut Ctx, sizes: &[usize], big: &[us
     for (i, &n) in sizes.iter().chain(big.iter()).enumerate() {
         let is_big = i >= sizes.len();
         let t: &[usize] = if is_big { &few } else { &ts };
-        let mut lens = vec![n, n.saturating_sub(1), 1, n / 2 + 1];
+        let mut lens = if n > 1024 && !cx.th { vec![n, n / 2 + 1] } else { vec![n, n.saturating_sub(1), 1, n / 2 + 1] };
         if !is_big { lens.extend_from_slice(&[0, n + 3]); }
         lens.sort();
         lens.dedup();
@@ -334,10 +334,10 @@ fn r2fft<F: FftField + PrimeField>(cx: &mut Ctx, ts: &[usize], kind: &str, dom_n
         cx.emit("r2fft", ts, &args, || if inv { hl(&d.ifft(v)) } else { hl(&d.fft(v)) });
     }
 }
-fn r2fft_field<F: FftField + PrimeField>(cx: &mut Ctx, logs: &[u32], ts_small: &[usize], ts_big: &[usize], general_too: bool) {
+fn r2fft_field<F: FftField + PrimeField>(cx: &mut Ctx, logs: &[u32], big_from: u32, ts_small: &[usize], ts_big: &[usize], general_too: bool) {
     for &lg in logs {
         let n = 1usize << lg;
-        let bigish = lg >= 11;
+        let bigish = lg >= big_from;
         let t = if bigish { ts_big } else { ts_small };
         let mut lens = if bigish { vec![n, n / 4, n - 1] } else { vec![n, n / 4, n / 8, n - 1, 1, n / 4 + 1, n + 1] };
         lens.retain(|&l| l >= 1 || n == 1);
@@ -630,17 +630,17 @@ fn main() {
     }
     if cx.want("mfft") {
         // parallel_fft is taken iff two-adicity(size) > log2_floor(T)
-        mfft_field::<M2593>(cx, &[1, 2, 3, 4, 6, 8, 9, 12, 16, 24, 32, 48, 96, 288], if th { &[864, 2592] } else { &[864] });
-        mfft_field::<M18433>(cx, &[2, 64, 128, 192, 256, 384, 576], if th { &[1024, 1152, 2048, 2304, 4608] } else { &[1152, 2048] });
-        mfft_field::<bn384::Fq>(cx, &[1, 4, 12, 72], if th { &[128, 288, 1152] } else { &[128, 288] });
+        mfft_field::<M2593>(cx, &[1, 2, 3, 4, 6, 8, 9, 12, 16, 24, 32, 48, 96], if th { &[288, 864, 2592] } else { &[288, 864] });
+        mfft_field::<M18433>(cx, &[2, 64, 128, 192, 256], if th { &[384, 576, 1024, 1152, 2048, 2304, 4608] } else { &[384, 576, 1152, 2048] });
+        mfft_field::<bn384::Fq>(cx, &[1, 4, 12, 72], if th { &[128, 288, 1152] } else { &[128] });
     }
     if cx.want("r2fft") {
         // thresholds: roots table 2^7/2^8 (and the recursive split from 2^9, depth two from 2^16),
         // root compaction at 128 chunks, butterfly parallelisation above 2^10 inputs and for gaps > 2^10
         let logs: Vec<u32> = if th { (0..=16).collect() } else { (0..=13).collect() };
-        r2fft_field::<FDT65537>(cx, &logs, &ts, &ts, true);
-        r2fft_field::<FDGoldilocks>(cx, if th { &[3, 7, 8, 9, 10, 11, 12, 13, 14] } else { &[3, 7, 8, 9, 10, 11, 12] }, &few, &few, true);
-        r2fft_field::<bls12_381::Fr>(cx, if th { &[2, 7, 8, 9, 10, 11, 12] } else { &[2, 8, 9, 10, 11] }, &few, &[3, 64], true);
+        r2fft_field::<FDT65537>(cx, &logs, 11, &ts, &ts, true);
+        r2fft_field::<FDGoldilocks>(cx, if th { &[3, 7, 8, 9, 10, 11, 12, 13, 14] } else { &[3, 7, 8, 9, 10, 11, 12] }, 10, &few, &few, true);
+        r2fft_field::<bls12_381::Fr>(cx, if th { &[2, 7, 8, 9, 10, 11, 12] } else { &[2, 8, 9, 10, 11] }, 9, &few, &[3, 64], true);
         // general domain that resolves to a mixed-radix one
         let v = rvec::<bn384::Fq>(&mut cx.rng, 30);
         r2fft::<bn384::Fq>(cx, &few, "g", 5000, bn384::Fq::one(), false, &v);
